@@ -116,6 +116,25 @@ func checkHash(c hashCase) (h.Info, error) {
 	for j := range src {
 		sps[j].Absorb(src[j])
 	}
+	// the state as CopyState shows it right after absorbing = the permuted state of every lane's own sponge
+	{
+		var l, hh [curl.StateSize]uint
+		cu.CopyState(l[:], hh[:])
+		for j := range src {
+			for i := 0; i < curl.StateSize; i++ {
+				if got := int8(hh[i]>>uint(j)&1) - int8(l[i]>>uint(j)&1); got != sps[j].S[i] {
+					return info, fmt.Errorf("[%s build] CopyState right after absorbing %d block(s): lane %d/%d state[%d] = %d, Curl-P-81 reference %d", buildVariant, c.Blocks, j, c.N, i, got, sps[j].S[i])
+				}
+			}
+		}
+	}
+	// a squeeze of zero trits (a multiple of 243) produces nothing and must not count as a squeezed block
+	if c.Seed%3 == 0 {
+		d0 := make([]trinary.Trits, c.N)
+		if err := cu.Squeeze(d0, 0); err != nil {
+			return info, fmt.Errorf("[%s build] Squeeze of 0 trits after absorbing: %v", buildVariant, err)
+		}
+	}
 	for ci, blocks := range calls {
 		if blocks < 1 || blocks > 4 {
 			return info, fmt.Errorf("PRECONDITION: squeeze length")
